@@ -105,15 +105,20 @@ Section ResolverProofs.
     - rewrite !pass_S. apply inline_loop_eqv; [exact IH | exact E].
   Qed.
 
-  Lemma resolve_eqv_cs :
-    forall fuel r r' code cs cs', imported r = imported r' ->
-      res_eqv (resolve fuel r code cs) (resolve fuel r' code cs').
+  Lemma resolve_eqv_gen :
+    forall fuel r r' code code' cs cs', imported r = imported r' -> parse code = parse code' ->
+      res_eqv (resolve fuel r code cs) (resolve fuel r' code' cs').
   Proof.
-    intros fuel r r' code cs cs' E. unfold Resolver.resolve.
+    intros fuel r r' code code' cs cs' E Ep. unfold Resolver.resolve. rewrite <- Ep.
     destruct (parse code).
     - apply inlining_pass_eqv. now rewrite !add_code_source_imported.
     - split; [cbn [fst]; now rewrite !add_code_source_imported | reflexivity].
   Qed.
+
+  Lemma resolve_eqv_cs :
+    forall fuel r r' code cs cs', imported r = imported r' ->
+      res_eqv (resolve fuel r code cs) (resolve fuel r' code cs').
+  Proof. intros. now apply resolve_eqv_gen. Qed.
 
   Lemma resolve_eqv :
     forall fuel r r' code cs, imported r = imported r' ->
